@@ -94,10 +94,18 @@ def case_st(draw):
             val = draw(st.one_of(st.integers(0, 63), st.integers(0, 20))) if verb == "SETTA" else draw(st.one_of(st.integers(0, 30), st.integers(-10, 80)))
             steps.append({"op": "cmd", "t": "s", "verb": verb, "args": [str(val)]})
         else:
-            verb = draw(st.sampled_from(["FAKE_TOA", "FAKE_TOA", "FAKE_RSSI", "FAKE_RSSI", "FAKE_RSSI", "FAKE_CI", "FAKE_CI", "SETFORMAT"]))
+            verb = draw(st.sampled_from(["FAKE_TOA", "FAKE_TOA", "FAKE_RSSI", "FAKE_RSSI", "FAKE_RSSI", "FAKE_CI", "FAKE_CI", "SETFORMAT", "FAKE_DROP", "RFMUTE"]))
             r = draw(st.sampled_from([0, 0, 0, 1, 2, 3]))
             if verb == "SETFORMAT":
                 args = [str(draw(st.sampled_from([0, 1])))]
+            elif verb in ("FAKE_DROP", "RFMUTE"):
+                # one recipient simulates loss (or is muted): the OTHER recipients of the same bursts must still get faithful
+                # bits and their own metadata (seeded change C10-A5: one transformed message object shared by all recipients)
+                args = [str(draw(st.integers(1, 3)))] if verb == "FAKE_DROP" else [str(draw(st.sampled_from([1, 1, 0])))]
+                steps.append({"op": "cmd", "t": r, "verb": verb, "args": args})
+                for _ in range(draw(st.integers(1, 2))):
+                    steps.append({"op": "burst", "b": draw(burst_st()), "fn": draw(S.fn()), "tn": draw(st.integers(0, 7)), "pwr": draw(st.integers(0, 20))})
+                continue
             elif draw(st.integers(0, 3)) == 0:
                 args = [str(draw(st.one_of(st.integers(-6, 6), st.integers(-50, 50))))]        # relative form
             else:
